@@ -1,6 +1,7 @@
 // thr-ro / thr-own / thr-pool : see /verif/protocol/threads.md
 #pragma once
 #include <atomic>
+#include <memory>
 #include <thread>
 
 #include "cmd_ondemand.h"
@@ -198,14 +199,20 @@ static void cmd(const std::vector<std::string>& t, std::string& out) {
     out = std::string("ok same=") + (same ? "1" : "0");
     return;
   }
-  if (t[0] == "thr-pool" && t.size() == 4) {
+  if ((t[0] == "thr-pool" || t[0] == "thr-poolcopy") && t.size() == 4) {
 #ifdef SONIC_LOCKED_ALLOCATOR
+    const bool per_thread_copy = t[0] == "thr-poolcopy";
     uint64_t nt, nops, seed;
     if (!parse_u64(t[1], nt) || !parse_u64(t[2], nops) || !parse_u64(t[3], seed) || nt < 1 || nt > 32 || nops > 100000) {
       out = "bad-op";
       return;
     }
     MemoryPoolAllocator<> pool(1024);
+    MemoryPoolAllocator<>* pool_holder = &pool;
+    auto pool_ref = [](MemoryPoolAllocator<>* p) -> MemoryPoolAllocator<>& { return *p; };
+    // thr-poolcopy: every thread works through its own COPY of the allocator (copies share one pool); the copies are made
+    // here, before the threads start, so the reference count itself is not touched concurrently
+    std::vector<std::unique_ptr<MemoryPoolAllocator<>>> copies;
     struct Blk {
       uint8_t* p;
       size_t n;
@@ -214,9 +221,12 @@ static void cmd(const std::vector<std::string>& t, std::string& out) {
     std::vector<std::vector<Blk>> owned(nt);
     std::vector<int> bad(nt, 0);
     std::atomic<int> go{0};
+    if (per_thread_copy)
+      for (size_t i = 0; i < nt; i++) copies.emplace_back(new MemoryPoolAllocator<>(pool));
     auto work = [&](size_t ti) {
       while (!go.load(std::memory_order_acquire)) {
       }
+      MemoryPoolAllocator<>& pool = per_thread_copy ? *copies[ti] : *(&pool_ref(pool_holder));
       uint64_t x = seed * 2654435761u + ti * 0x9e3779b97f4a7c15ull + 1;
       auto rnd = [&]() {
         x ^= x << 13;
